@@ -93,6 +93,59 @@ def rule_insert(ctx, M, gname, rule):
                sample={"slab_insert": si.where})
 
 
+def rule_insert_pinned(ctx, M, gname, rule):
+    """insert_pinned (the entry the concurrent-stream consumers use): slab insert of the argument, then - all with the
+    slab key - keys.insert, both tables resized to at least the slab's capacity *before* they are indexed, state Pending,
+    readiness bit armed, key returned."""
+    g = M.groups[gname]
+    b = g.get("insert_pinned")
+    if b is None:
+        return
+    bi = M.info(b)
+    slab = sf(slab_field(gname))
+    ins = [s for s in bi.sites if s.key == ("Slab", "insert") and s.arg(0) == slab]
+    if len(ins) != 1:
+        ctx.fail(rule, b.def_, "expected exactly one Slab::insert on the member slab (found %d)" % len(ins), site=b.span)
+        return
+    si = ins[0]
+    k = si.term
+    probs = []
+    if si.arg(1) != ("param", 2):
+        probs.append("the inserted value is not the argument")
+    exits = list(bi.return_blocks)
+    kin = [s for s in bi.sites if s.key == ("BTreeSet", "insert") and s.arg(0) == sf("keys") and s.arg(1) == k]
+    st = [blk for blk, variant, idx, base, w in scan.state_sets(bi) if variant == "Pending" and idx == k and base == sf("states")]
+    arm = [s for s in scan.arm_sites(bi) if s.arg(1) == k]
+    for name, blocks in (("keys.insert(k)", [s.block for s in kin]), ("states[k] := Pending", st), ("readiness.set_ready(k)", [s.block for s in arm])):
+        ok, bad = bi.must_reach([si.target], blocks, exits)
+        if not blocks or not ok:
+            probs.append("%s is not performed on every path after the slab insert" % name)
+
+    def big_enough(t):
+        # capacity(slab), or max(capacity(slab), k) in either order
+        cap = lambda x: x[0] == "call" and x[1] == ("Slab", "capacity") and x[2] and x[2][0] == slab
+        if cap(t):
+            return True
+        return t[0] == "call" and t[1][1] == "max" and len(t[2]) == 2 and any(cap(x) for x in t[2])
+    for tbl, owner in (("wakers", "WakerVec"), ("states", "PollVec")):
+        rs = [s for s in bi.sites if s.key == (owner, "resize") and s.arg(0) == sf(tbl)]
+        good = [s for s in rs if s.arg(1) is not None and big_enough(s.arg(1)) and s.arg(1)[3] in bi.body.reach([si.target]) | {si.target}]
+        if not good:
+            probs.append("%s is not resized to the slab's capacity after the insert" % tbl)
+            continue
+        users = st if tbl == "states" else [s.block for s in arm]
+        for ub in users:
+            if not any(bi.body.dominates(s.block, ub) for s in good):
+                probs.append("%s is indexed before it was resized" % tbl)
+    rets = flow.returned_values(bi)
+    if not rets or not all(t == ("agg", ("Key", "Key"), (k,)) for _, _, _, t in rets):
+        probs.append("the returned key is not the slab key of the inserted member")
+    if [1 for blk, variant, idx, base, w in scan.state_sets(bi) if idx != k]:
+        probs.append("insert_pinned writes the state of another slot")
+    ctx.check(not probs, rule, b.def_, "insert_pinned: slab insert, tables grown to the slab's capacity, then key / state Pending / arm / return all with the same slab key",
+              site=b.span, path=sorted(set(probs)))
+
+
 def rule_reserve(ctx, M, gname, rule):
     g = M.groups[gname]
     b = g.get("reserve")
